@@ -413,7 +413,7 @@ class Gen(object):
         if la:
             kinds += ['instop', 'instop_value']
         if self.home in ('op', 'derived'):
-            kinds += ['self_attr', 'self_read', 'self_op']
+            kinds += ['self_attr', 'self_read', 'self_op', 'self_relate', 'self_relate', 'self_relate', 'self_select']
         k = r.choice(kinds)
 
         def assign_new(ty, prefix, e):
@@ -467,6 +467,20 @@ class Gen(object):
             return Assign(Field({'t': 'self'}, 'N'), intv())
         if k == 'self_read':
             return assign_new('int', 'n', Field({'t': 'self'}, 'N'))
+        if k == 'self_relate':
+            # self named as an instance of a relate / unrelate statement
+            bs = [n for sc in self.scopes for n, t in sc.items() if t == 'inst:B']
+            pre = []
+            if not bs:
+                b = self.fresh('inst:B', 'b')
+                pre.append({'t': 'create', 'v': b, 'k': 'B'})
+                bs = [b]
+            x, y = ('self', r.choice(bs)) if r.random() < 0.5 else (r.choice(bs), 'self')
+            return pre + [{'t': r.choice(['relate', 'unrelate']), 'a': x, 'b': y, 'rel': 'R1', 'ph': '', 'using': ''}]
+        if k == 'self_select':
+            sn = self.fresh('set:B', 'r')
+            return {'t': 'select_related', 'card': 'many', 'v': sn, 'h': {'t': 'self'}, 'chain': [{'k': 'B', 'rel': 'R1', 'ph': ''}],
+                    'haswhere': False, 'w': B(True)}
         if k == 'self_op':
             return assign_new('int', 'w', {'t': 'ocall', 'h': {'t': 'self'}, 'n': 'iop', 'ps': ps(k=intv())})
         return None
